@@ -90,6 +90,7 @@ func (e *FEnc) atCallClauses(name string) []*Clause {
 func (e *FEnc) atCall(st *State, in ssa.Instruction, name string, args []*Val, recv *Val) {
 	for _, c := range e.atCallClauses(name) {
 		env := e.fnEnvAt(st, e.entry, in.Block(), e.curIdx)
+		env.lenient = true
 		for i, a := range args {
 			env.vars[fmt.Sprintf("$%d", i)] = a
 		}
@@ -147,6 +148,34 @@ func (e *FEnc) call(st *State, in ssa.Instruction, cc *ssa.CallCommon, res ssa.V
 	for _, a := range cc.Args {
 		args = append(args, e.valOf(a))
 	}
+	if fcPre := e.calleeContract(cc); fcPre != nil && fcPre.Pure && len(e.atCallClauses(name)) == 0 {
+		goto afterPublish // pure callees neither read nor write caller memory through pointers
+	}
+	// locals that the callee (or a contract expression about this call) can reach through pointers:
+	// those reachable from the arguments plus those whose address was stored in the heap
+	{
+		var as []*Val
+		for _, a := range args {
+			if a != nil {
+				as = append(as, a)
+			}
+		}
+		pub := e.reachable(st, as)
+		for id := range st.leaked {
+			pub[id] = true
+		}
+		// every local whose address is ever used as a value keeps an up-to-date copy in the heap, so that
+		// the heap at two call sites differs only where the program changed something
+		for id := range st.cells {
+			if a := e.allocs[id]; a.Instr != nil && e.exposed[a.Instr] {
+				pub[id] = true
+			}
+		}
+		if len(pub) > 0 {
+			e.publish(st, pub)
+		}
+	}
+afterPublish:
 	e.atCall(st, in, name, args, recv)
 
 	fn := cc.StaticCallee()
@@ -296,6 +325,7 @@ func (e *FEnc) call(st *State, in ssa.Instruction, cc *ssa.CallCommon, res ssa.V
 			if !(fc != nil && fc.PreservesArgs) {
 				e.havocSet(st, reach)
 			}
+			e.publishExposed(st)
 		}
 		if resTy != nil {
 			result = e.newVal(resTy, "r_"+mangle(lastPart(name)))
@@ -513,4 +543,17 @@ func (e *FEnc) pureArg(st *State, a *Val) *Val {
 		}
 	}
 	return a
+}
+
+func (e *FEnc) calleeContract(cc *ssa.CallCommon) *FuncContract {
+	if cc.IsInvoke() {
+		if n := namedOf(cc.Value.Type()); n != nil && n.Obj().Pkg() != nil {
+			return e.eng.contractByKey("iface:" + n.Obj().Pkg().Path() + "." + n.Obj().Name() + "." + cc.Method.Name())
+		}
+		return nil
+	}
+	if fn := cc.StaticCallee(); fn != nil {
+		return e.eng.contractOf(fn)
+	}
+	return nil
 }
